@@ -28,6 +28,7 @@ type tmSpec struct {
 }
 
 func runC30(c *core.Ctx) {
+	accessorPairs(c, "C30.accessor-keys", 2, "native/service/header_sync/cosmos", "native/service/header_sync/okex")
 	specs := []tmSpec{
 		{"native/service/header_sync/cosmos", "CosmosHandler"},
 		{"native/service/header_sync/okex", "Handler"},
